@@ -196,6 +196,11 @@ def pval(t, v):
         if isinstance(v, dict) and v.get('prim') == 'Lambda_rec':
             return ('lamrec', tuple(pinstr(x) for x in v['args'][0]))
         return ('lam', tuple(pinstr(x) for x in v))
+    if k == 'ticket':
+        a = v['args'] if isinstance(v, dict) else v
+        if len(a) == 2:
+            a = [a[0]] + list(a[1]['args'])
+        return ('t', pval(('address',), a[0]), pval(t[1], a[1]), num(a[2]['int']))
     if k == 'address':
         if 'bytes' in v:
             raw = bytes.fromhex(v['bytes'])
